@@ -566,6 +566,103 @@ pub struct PairCase {
     pub env: Env,
     pub a: D,
     pub b: D,
+    /// the pair was built from two definitions that are renamings of each other (same denotation by construction)
+    #[serde(default)]
+    pub iso: bool,
+}
+
+/// `d` with every reference to definition `from` redirected to definition `to`
+fn redirect_refs(d: &D, from: usize, to: usize) -> D {
+    let f = |x: &D| redirect_refs(x, from, to);
+    match d {
+        D::Ref(i) if *i == from => D::Ref(to),
+        D::Array(x) => D::Array(Box::new(f(x))),
+        D::Set(x) => D::Set(Box::new(f(x))),
+        D::Map(k, v) => D::Map(Box::new(f(k)), Box::new(f(v))),
+        D::Tuple(ps, r) => D::Tuple(ps.iter().map(f).collect(), r.as_ref().map(|r| Box::new(f(r)))),
+        D::Object { props, index } => D::Object {
+            props: props.iter().map(|p| crate::den::Prop { key: p.key.clone(), ty: f(&p.ty), optional: p.optional }).collect(),
+            index: index.as_ref().map(|i| Box::new(f(i))),
+        },
+        D::Union(ms) => D::Union(ms.iter().map(f).collect()),
+        D::Inter(ms) => D::Inter(ms.iter().map(f).collect()),
+        other => other.clone(),
+    }
+}
+
+fn refs_of(d: &D, out: &mut std::collections::BTreeSet<usize>) {
+    match d {
+        D::Ref(i) => {
+            out.insert(*i);
+        }
+        D::Array(x) | D::Set(x) => refs_of(x, out),
+        D::Map(k, v) => {
+            refs_of(k, out);
+            refs_of(v, out)
+        }
+        D::Tuple(ps, r) => {
+            ps.iter().for_each(|p| refs_of(p, out));
+            if let Some(r) = r {
+                refs_of(r, out)
+            }
+        }
+        D::Object { props, index } => {
+            props.iter().for_each(|p| refs_of(&p.ty, out));
+            if let Some(i) = index {
+                refs_of(i, out)
+            }
+        }
+        D::Union(ms) | D::Inter(ms) => ms.iter().for_each(|m| refs_of(m, out)),
+        _ => {}
+    }
+}
+
+/// Least fixpoint of "has a finite value", over-approximated at every node that is not a plain constructor: a type
+/// this calls uninhabited has no value at all (a value needs a well-founded derivation), whatever the answer for
+/// the others.
+pub fn definitely_uninhabited(env: &Env, d: &D) -> bool {
+    fn inh(env: &Env, d: &D, defs: &[bool]) -> bool {
+        match d {
+            D::Never => false,
+            D::Ref(i) => defs[*i],
+            D::Tuple(ps, _) => ps.iter().all(|p| inh(env, p, defs)),
+            D::Object { props, .. } => props.iter().filter(|p| !p.optional).all(|p| inh(env, &p.ty, defs)),
+            D::Union(ms) => ms.iter().any(|m| inh(env, m, defs)),
+            D::Inter(ms) => ms.iter().all(|m| inh(env, m, defs)),
+            _ => true,
+        }
+    }
+    let mut defs = vec![false; env.defs.len()];
+    loop {
+        let next: Vec<bool> = env.defs.iter().map(|(_, b)| inh(env, b, &defs)).collect();
+        if next == defs {
+            break;
+        }
+        defs = next;
+    }
+    !inh(env, d, &defs)
+}
+
+/// bodies of self-recursive definitions (index `me`) whose decision needs the co-inductive cut of lists or of objects
+fn recursive_body(s: &mut Src, me: usize) -> D {
+    let leaf = |s: &mut Src| match s.below(4) {
+        0 => D::Num,
+        1 => D::Str,
+        2 => D::StrLit("a".into()),
+        _ => D::Bool,
+    };
+    let me_or_null = D::Union(vec![D::Ref(me), D::Null]);
+    match s.below(9) {
+        0 => D::Tuple(vec![leaf(s), me_or_null], None),
+        1 => D::Tuple(vec![leaf(s)], Some(Box::new(D::Ref(me)))),
+        2 => D::Tuple(vec![D::Ref(me)], None),
+        3 => D::obj(vec![("a", leaf(s), false), ("n", D::Ref(me), true)]),
+        4 => D::obj(vec![("a", D::Ref(me), false)]),
+        5 => D::Union(vec![leaf(s), D::Array(Box::new(D::Ref(me)))]),
+        6 => D::Tuple(vec![leaf(s), D::Union(vec![D::Tuple(vec![D::Ref(me)], None), D::Null])], None),
+        7 => D::Tuple(vec![leaf(s), D::Ref(me)], None),
+        _ => D::obj(vec![("a", leaf(s), false), ("n", me_or_null, false)]),
+    }
 }
 
 fn as_bool(v: &Value) -> Option<bool> {
@@ -603,7 +700,41 @@ impl Check for C05 {
     }
     fn generate(&self, s: &mut Src, _tier: Tier) -> Value {
         let cfg = sem_cfg();
-        let (env, roots) = gen_env_and_roots(s, &cfg, 1);
+        let (mut env, roots) = gen_env_and_roots(s, &cfg, 1);
+        // one case in ten: two definitions that are renamings of each other (equal by construction: the decision has to
+        // get through its co-inductive cut), or a recursive type without a finite value against never
+        if s.chance(1, 10) {
+            let k = env.defs.len();
+            if k + 2 <= crate::den::DEF_NAMES.len() {
+                // either a definition the generator made (when it is recursive) or a small recursive shape
+                let own = (0..k).find(|j| {
+                    let mut r = std::collections::BTreeSet::new();
+                    refs_of(&env.defs[*j].1, &mut r);
+                    r.len() == 1 && r.contains(j)
+                });
+                let body = match own {
+                    Some(j) if s.chance(1, 3) => redirect_refs(&env.defs[j].1.clone(), j, k),
+                    _ => recursive_body(s, k),
+                };
+                env.defs.push((crate::den::DEF_NAMES[k].to_string(), body.clone()));
+                env.defs.push((crate::den::DEF_NAMES[k + 1].to_string(), redirect_refs(&body, k, k + 1)));
+                let wrap = |d: D, w: usize| match w {
+                    0 | 1 => d,
+                    2 => D::Array(Box::new(d)),
+                    3 => D::Tuple(vec![d], None),
+                    4 => D::obj(vec![("a", d, false)]),
+                    _ => D::Union(vec![d, D::Null]),
+                };
+                let w = s.below(6);
+                if definitely_uninhabited(&env, &D::Ref(k)) && s.chance(1, 2) {
+                    let a = if w == 2 { D::Ref(k) } else { wrap(D::Ref(k), w) };
+                    let b = if w == 5 { D::Null } else { D::Never };
+                    return serde_json::to_value(PairCase { env, a, b, iso: false }).unwrap();
+                }
+                let (a, b) = (wrap(D::Ref(k), w), wrap(D::Ref(k + 1), w));
+                return serde_json::to_value(PairCase { env, a, b, iso: true }).unwrap();
+            }
+        }
         let a = roots[0].clone();
         let b = match s.below(10) {
             0 => crate::den::gen_type(s, &cfg, env.defs.len(), 2),
@@ -616,7 +747,7 @@ impl Check for C05 {
         };
         let (a, b) = if s.chance(1, 2) { (a, b) } else { (b, a) };
         let (a, b) = (repair_indexed(&a), repair_indexed(&b));
-        serde_json::to_value(PairCase { env, a, b }).unwrap()
+        serde_json::to_value(PairCase { env, a, b, iso: false }).unwrap()
     }
     fn exec(&self, case: &Value, ctx: &mut Ctx) -> Outcome {
         let case: PairCase = match serde_json::from_value(case.clone()) {
@@ -625,7 +756,7 @@ impl Check for C05 {
         };
         let mut out = Outcome::default();
         out.evals = 1;
-        let detail = json!({"env": case.env, "a": case.a, "b": case.b});
+        let detail = json!({"env": case.env, "a": case.a, "b": case.b, "iso": case.iso});
         // the decision procedure is exponential in the number of object types that meet in unions (a dozen members take
         // seconds, two dozen minutes): such pairs say nothing about correctness and would turn a time budget into a verdict,
         // so they are left out by construction and counted
@@ -686,6 +817,40 @@ impl Check for C05 {
                 out.mismatch(ctx, "decision_depends_on_context", format!("is_subtype answered {} and, in a fresh context, {}", ab, f), detail.clone());
             }
         }
+        let features = pair_features(&case.env, &case.a, &case.b);
+        let sig = |base: &str| -> Vec<String> {
+            if features.is_empty() {
+                vec![base.to_string()]
+            } else {
+                features.iter().map(|f| format!("{}:{}", base, f)).collect()
+            }
+        };
+        // two renamings of one definition are the same set
+        if case.iso {
+            out.label("iso_pair");
+            if !ab || ba == Some(false) {
+                // is it the renaming, or is A not even assignable to itself (a different root cause)?
+                let refl = ctx.compiler.sem(json!({"sem":"subtype","env":case.env,"a":case.a,"b":case.a}), if ctx.shrinking { 3 } else { 30 });
+                let refl_ok = match refl {
+                    Ok(v) => as_bool(&v["ab"]),
+                    Err(CompileFail::Infra(e)) => return Outcome::infra(e),
+                    Err(_) => None,
+                };
+                if refl_ok == Some(false) {
+                    out.mismatch_any(ctx, &sig("says_not_assignable_but_no_witness"), "beff says A is not assignable to A itself", json!({"env": case.env, "a": case.a, "b": case.a}));
+                } else {
+                    out.mismatch_any(ctx, &sig("renamed_definition_not_assignable"), format!("B is A with its recursive definition renamed, but is_subtype(A,B)={} and is_subtype(B,A)={:?} (A is assignable to itself: {:?})", ab, ba, refl_ok), detail.clone());
+                }
+                return out;
+            }
+        }
+        // a type without any finite value is assignable to everything
+        if definitely_uninhabited(&case.env, &case.a) {
+            out.label("uninhabited_left");
+            if !ab {
+                out.mismatch_any(ctx, &sig("uninhabited_type_not_assignable"), "A has no finite value (every value would have to contain itself), so it is assignable to every type, but beff says it is not assignable to B", detail.clone());
+            }
+        }
         // reference
         let vocab = vocab_of(&case.env, &case.a, &case.b);
         let mut en = Enumerator { env: &case.env, vocab: &vocab, cap: 80, complete: true, budget: 20000 };
@@ -724,14 +889,6 @@ impl Check for C05 {
             out.nontrivial = Some(fp(&detail.to_string()));
             out.sample = Some(json!({"a": case.a, "b": case.b, "env": case.env, "beff_says_a_assignable_to_b": ab, "witness": witness.as_ref().map(|w| w.to_tagged()), "values_enumerated": ws.len(), "complete": complete}));
         }
-        let features = pair_features(&case.env, &case.a, &case.b);
-        let sig = |base: &str| -> Vec<String> {
-            if features.is_empty() {
-                vec![base.to_string()]
-            } else {
-                features.iter().map(|f| format!("{}:{}", base, f)).collect()
-            }
-        };
         for f in &features {
             out.label(format!("feature:{}", f));
         }
